@@ -38,6 +38,7 @@ Inductive site :=
 | RCbeUint8         (* cbe/decoder_reader.go ReadUint8 *)
 | RCbeTypeOrEOF     (* cbe/decoder_reader.go ReadTypeOrEOF *)
 | RCbeIntoBuffer    (* cbe/decoder_reader.go readIntoBuffer *)
+| RCbeForward       (* cbe/decoder_reader.go Reader.Read: the io.Reader handed to the external decoders; forwards (n, err) *)
 | RCbePropagate     (* cbe/decoder_reader.go: err results of uleb128 / compact_float / compact_time decoders *)
 | RUlebFirst        (* go-uleb128 DecodeWithByteBuffer, first byte *)
 | RUlebCont         (* go-uleb128 DecodeWithByteBuffer, continuation bytes *)
@@ -66,7 +67,7 @@ Definition site_idx (s : site) : N :=
   | GCbeMarshal => 16 | GCteMarshal => 17 | GCbeUnmarshal => 18 | GCteUnmarshal => 19
   | GCbeDecode => 20 | GCteDecode => 21
   | RIoCopy => 22 | RBufioFill => 23 | RBufioRead => 24 | RBufioDirect => 25
-  | SUnknown => 26
+  | SUnknown => 26 | RCbeForward => 27
   end.
 Definition site_eqb (a b : site) : bool := site_idx a =? site_idx b.
 Definition sclass_eqb (a b : sclass) : bool :=
@@ -85,7 +86,7 @@ Fixpoint shape_of_list (l : list (site * sclass)) (s : site) : sclass :=
 Definition current_shape_list : list (site * sclass) :=
   [ (WCbeBytes, Checked); (WCbeString, Checked); (WCteBytes, Checked);
     (WCteStringNotLF, Checked); (WCteStringLF, Checked);
-    (RCbeUint8, Checked); (RCbeTypeOrEOF, Checked); (RCbeIntoBuffer, Checked); (RCbePropagate, Checked);
+    (RCbeUint8, Checked); (RCbeTypeOrEOF, Checked); (RCbeIntoBuffer, Checked); (RCbeForward, Checked); (RCbePropagate, Checked);
     (RUlebFirst, Checked); (RUlebCont, Weak); (RCtByte, Checked); (RCtFill, Checked);
     (RCteCopy, Checked); (RCePeekUnmarshal, Checked); (RCePeekDecode, Checked);
     (GCbeMarshal, Checked); (GCteMarshal, Checked); (GCbeUnmarshal, Checked); (GCteUnmarshal, Checked);
@@ -293,6 +294,10 @@ Section Source.
            end
     end.
 
+  (* The external decoders (uleb128, compact_float, compact_time) read through Reader.Read, which
+     forwards the source's (n, err) and counts the bytes. *)
+  Definition fwd (e : rerr) : rerr := err_at sh RCbeForward e.
+
   (* uleb128.DecodeWithByteBuffer.  First byte: `if _, err = reader.Read(buffer); err != nil { return }`.
      Continuation bytes: `bytesRead, err = reader.Read(buffer); if bytesRead == 0 { return }` ... and the
      function returns whatever [err] holds when the last byte (no continuation bit) has been read: an error
@@ -303,7 +308,7 @@ Section Source.
     | O => (st, UHang)
     | Datatypes.S f =>
       let '(st', r) := rd st RUlebCont 1 in
-      let e := match sh RUlebCont with Unchecked => ENone | _ => rr_err r end in
+      let e := match sh RUlebCont with Unchecked => ENone | _ => fwd (rr_err r) end in
       if chk sh RUlebCont && negb (is_none e) then (st', URet e acc)
       else match rr_data r with
            | [] => (st', URet e acc)
@@ -313,7 +318,7 @@ Section Source.
 
   Definition uleb (fuel : nat) (st : rst) : rst * ures :=
     let '(st', r) := rd st RUlebFirst 1 in
-    match err_at sh RUlebFirst (rr_err r) with
+    match err_at sh RUlebFirst (fwd (rr_err r)) with
     | ENone => match rr_data r with
                | [] => (st', URet ENone [])          (* (0, nil): the stale buffer byte is used; not this property *)
                | b :: _ => if b <? 128 then (st', URet ENone [b]) else uleb_loop fuel st' [b]
@@ -328,7 +333,7 @@ Section Source.
     | Datatypes.S f =>
       if n =? 0 then (st, URet ENone acc)
       else let '(st', r) := rd st RCtFill n in
-           match err_at sh RCtFill (rr_err r) with
+           match err_at sh RCtFill (fwd (rr_err r)) with
            | ENone => ct_fill f st' (n - blen (rr_data r)) (acc ++ rr_data r)
            | e => (st', URet e acc)
            end
@@ -336,7 +341,7 @@ Section Source.
 
   Definition ct_byte (st : rst) : rst * ures :=
     let '(st', r) := rd st RCtByte 1 in
-    (st', URet (err_at sh RCtByte (rr_err r)) (rr_data r)).
+    (st', URet (err_at sh RCtByte (fwd (rr_err r))) (rr_data r)).
 
   (* `value, ..., err := <library decoder>(reader, buffer); if err != nil { unexpectedError(err) }` *)
   Definition propagate (x : rst * ures) : rst * pres bytes :=
